@@ -172,6 +172,11 @@ static ezc3d::DataNS::Frame buildFrame(const Shape &s, long long dev, uint64_t v
     std::vector<std::string> names;
     for (size_t i = 0; i < s.nP; ++i) names.push_back(i < s.plabels.size() ? s.plabels[i] : "unlabeled_point_" + std::to_string(i));
     size_t nC = s.nC, nSub = s.nC ? s.nSub : 0;
+    if (nC && s.prate >= 1.f && s.arate > 0.f && vseed % 3 == 0 && s.nFrames == 0) {
+        // callers may also derive the sub-frame count from the declared rates (ANALOG:RATE / POINT:RATE) instead of the header
+        float q = s.arate / s.prate;
+        if (q >= 1.f && q == static_cast<float>(static_cast<long long>(q)) && q < 1000.f) nSub = static_cast<size_t>(q);
+    }
     note = "match";
     switch (dev) {
     case 1: if (!names.empty()) { names.pop_back(); note = "pt-1"; } break;
@@ -326,7 +331,21 @@ Outcome Interp::exec(const Op &op) {
             ParamSpec s = specOf(op);
             Outcome setOut;
             ezc3d::ParametersNS::GroupNS::Parameter p = makeParameter(s, setOut);
-            if (setOut.threw) { out = setOut; out.note = "set-refused"; out.mutating = false; return out; }
+            if ((op.arg(3) / 2) % 2 != 0 && !s.unnamed && !s.untyped) {
+                // the caller starts from a COPY of the parameter the object already holds (if any) and calls set() on it
+                try {
+                    ezc3d::ParametersNS::GroupNS::Parameter q2(obj->parameters().group(s.group).parameter(s.name));
+                    q2.description(s.desc); if (s.lock) q2.lock(); else q2.unlock();
+                    setOut = Outcome();
+                    try {
+                        if (s.type == 0) { if (s.dims.empty()) q2.set(s.ints); else q2.set(s.ints, s.dims); }
+                        else if (s.type == 1) { std::vector<float> v; for (uint32_t b : s.floats) v.push_back(bitsToFloat(b)); if (s.dims.empty()) q2.set(v); else q2.set(v, s.dims); }
+                        else { if (s.dims.empty()) q2.set(s.strs); else q2.set(s.strs, s.dims); }
+                    } catch (...) { setOut = classifyCurrentException(); }
+                    p = q2; out.note = "from-copy";
+                } catch (const std::invalid_argument &) {}     // no such parameter yet: the fresh one is used
+            }
+            if (setOut.threw) { const bool fromCopy = out.note == "from-copy"; out = setOut; out.note = fromCopy ? "set-refused-on-copy" : "set-refused"; out.mutating = false; return out; }
             out.mutating = true;
             obj->parameter(s.group, p);
         }
@@ -432,6 +451,46 @@ Outcome Interp::exec(const Op &op) {
                 }
             }
         }
+        else if (k == "selfsub") {
+            // fdup <k> <mode> <j>: hand one of the object's own stored frames back to it (append / replace / extend)
+            size_t n = obj->data().nbFrames();
+            if (n == 0) { out.skipped = true; out.note = "no stored frame"; return out; }
+            size_t src = static_cast<size_t>(op.arg(0) < 0 ? -op.arg(0) : op.arg(0)) % n;
+            long long mode = (op.arg(1) < 0 ? -op.arg(1) : op.arg(1)) % 3;
+            long long kk = op.arg(2) < 0 ? -op.arg(2) : op.arg(2);
+            const ezc3d::DataNS::Frame &stored = obj->data().frame(src);
+            { Shape s = shapeOf(*obj);
+              bool shapeOk = stored.points().nbPoints() == s.nP && stored.analogs().nbSubframes() == (s.nC ? s.nSub : 0);
+              if (!shapeOk) { out.skipped = true; out.note = "stored frame does not carry the declared shape (gap frame)"; return out; } }
+            out.mutating = true;
+            if (mode == 0) { out.note = "append|src=" + std::to_string(src); obj->frame(stored); }
+            else if (mode == 1) { size_t idx = static_cast<size_t>(kk) % n; out.note = "replace " + std::to_string(idx) + "|src=" + std::to_string(src); obj->frame(stored, idx); }
+            else { size_t idx = n + static_cast<size_t>(kk % 4); out.note = "extend " + std::to_string(idx) + "|src=" + std::to_string(src); obj->frame(stored, idx); }
+        }
+        else if (k == "pflip") {
+            // pflip <g> <n> <vseed>: set a float parameter holding some +0.0, then take a COPY of it from the object, give it the same
+            // values with the sign of every zero flipped (and the payload of NaNs untouched) and hand it back
+            std::string grp = groupOf(op.arg(0)), name = namesUpper ? upper(paramNameOf(op.arg(1))) : paramNameOf(op.arg(1));
+            Rng r(static_cast<uint64_t>(op.arg(2)));
+            size_t n = 1 + r.below(6);
+            std::vector<float> v1;
+            for (size_t i2 = 0; i2 < n; ++i2) { uint32_t b = genFloatBits(r); float f = bitsToFloat(b); if (f != f) f = 1.5f; v1.push_back(i2 % 2 == 0 ? 0.0f : f); }
+            ezc3d::ParametersNS::GroupNS::Parameter p1(name); p1.set(v1);
+            out.mutating = true;
+            obj->parameter(grp, p1);
+            ezc3d::ParametersNS::GroupNS::Parameter p2(obj->parameters().group(grp).parameter(name));
+            std::vector<float> v2 = v1; for (auto &f : v2) if (f == 0.0f) f = -f;
+            p2.set(v2);
+            obj->parameter(grp, p2);
+            out.note = "flipped";
+        }
+        else if (k == "mandparam") {
+            // directed reproductions only: replace a mandatory parameter by one of another type
+            out.mutating = true;
+            ezc3d::ParametersNS::GroupNS::Parameter p(op.arg(1) % 2 ? "RATE" : "USED");
+            if (op.arg(1) % 2) p.set(std::vector<int>() = {100}); else p.set(std::vector<float>() = {3.f});
+            obj->parameter(op.arg(0) % 2 ? "ANALOG" : "POINT", p);
+        }
         else if (k == "pcol" || k == "acol" || k == "acolx") {
             // pcol <nameBase> <ncols> <dev> <vseed> ; dev: 0 none,1 empty vector,2 frames-1,3 frames+1,4 first frame empty,
             // 5 first name exists,6 second name exists,7 ragged (later frame one column short), 8 reuse last caller vector
@@ -464,8 +523,11 @@ Outcome Interp::exec(const Op &op) {
             if (dev == 8 && !lastCol.empty()) { col = lastCol; out.note = "reuse-caller-vector"; }
             else if (dev == 1) { out.note = "empty-vector"; }
             else {
+                const bool reuseOneFrame = (static_cast<uint64_t>(op.arg(3)) % 3) == 1;   // g.add(content_f); column.push_back(g); with ONE frame object g
+                ezc3d::DataNS::Frame reused;
                 for (size_t f = 0; f < nF; ++f) {
-                    ezc3d::DataNS::Frame fr;
+                    ezc3d::DataNS::Frame fresh;
+                    ezc3d::DataNS::Frame &fr = reuseOneFrame ? reused : fresh;
                     size_t cols = ncols;
                     if (dev == 4 && f == 0) { cols = 0; out.note = "first-empty"; }
                     if (dev == 7 && nF >= 2 && f == nF - 1 && ncols >= 1) { cols = ncols - 1; out.note = "ragged"; }
